@@ -102,6 +102,11 @@ pub fn rle_32_decompress(input: &[u8], width: u32, height: u32, output: &mut [u8
 		return Err(Error::RdpError(RdpError::new(RdpErrorKind::UnexpectedType, "Bad header")))
 	}
 
+	if width == 0 || height == 0 {
+		// nothing to decode, and the plane slices below need at least one pixel
+		return Ok(())
+	}
+
 	process_plane(&mut input_cursor, width, height, &mut output[3..])?;
 	process_plane(&mut input_cursor, width, height, &mut output[2..])?;
 	process_plane(&mut input_cursor, width, height, &mut output[1..])?;
